@@ -87,6 +87,8 @@ def plan(seed, subbatch):
             head, _, field = spec["params"]["input_value"].partition(".")
             spec["params"]["input_value"] = f"{head}_{tf}" + (f".{field}" if field else "")
     config["fill"] = fill
+    if config["kind"] == "indicator" and sub_rng(seed, "round").random() < 0.2:
+        spec["common"]["round_value"] = sub_rng(seed, "round-k").choice((0, 0, 1, 2, 6))    # coarse / fine rounding of the output
     if tf and config["kind"] == "indicator" and sub_rng(seed, "companion").random() < 0.12:
         # the indicator as a member of a Hexital next to another member on a coarser multiple of its timeframe
         # (both timeframes new to the Hexital, the finer one first): appends must stay total for every member
